@@ -405,10 +405,24 @@ func (g *gen) aliasAndFixed() []*StructDef {
 	mk("Alias3", true, f(5, Required, I32), f(69, Required, String), f(133, Required, I64), f(6, Optional, I32))
 	mk("Alias4", false, f(62, Required, Bool), f(126, Default, I32), f(190, Optional, I32), f(254, Default, String), f(318, Optional, I64))
 	mk("Alias5", false, f(64, Required, I32), f(0, Default, I32), f(128, Optional, I32), f(4160, Default, I64))
+	// field-less definitions (nothing but the holder, or nothing at all), and holders of them
+	mk("EmptyN", false)
+	mk("EmptyU", true)
+	// a definition with more fields than fit in a byte-sized index: 256 fixed scalars, then variable-size ones
+	{
+		var fs []*Field
+		for i := 1; i <= 256; i++ {
+			fs = append(fs, f(uint16(i), Default, []Kind{I32, I16, I64, Bool, I8}[i%5]))
+		}
+		for i := 257; i <= 300; i++ {
+			fs = append(fs, f(uint16(i), []Req{Default, Optional, Required}[i%3], []Kind{String, I32, Binary, String}[i%4]))
+		}
+		mk("Wide300", false, fs...)
+	}
 	mk("FixedU", true, f(1, Default, I32), f(2, Required, I64), f(3, Default, Bool), f(4, Default, Double))
 	mk("FixedN", false, f(1, Default, I16), f(2, Required, I8), f(7, Default, I64))
 	mk("FixedOneU", true, f(3, Default, I64))
-	for i, in := range []string{"FixedU", "FixedN", "FixedOneU", "Alias1", "Alias3"} {
+	for i, in := range []string{"FixedU", "FixedN", "FixedOneU", "Alias1", "Alias3", "EmptyN", "EmptyU"} {
 		mk(fmt.Sprintf("Hold%s", in), i%2 == 0,
 			&Field{ID: 1, Name: "F1", T: &T{K: Struct, S: in, Ptr: true}},
 			&Field{ID: 2, Name: "F2", T: &T{K: List, Elem: &T{K: Struct, S: in, Ptr: true}}},
@@ -494,6 +508,10 @@ var InvalidClasses = []struct {
 	{"ptr/to-map", []string{"A *map[int32]int32 `frugal:\"1,optional,map<i32:i32>\"`"}},
 	{"ptr/to-set-of-struct", []string{"A *[]*%B `frugal:\"1,optional,set<%B>\"`"}},
 	{"id/duplicate", []string{"A int32 `frugal:\"1,default,i32\"`", "B int32 `frugal:\"1,default,i32\"`"}},
+	{"id/duplicate-max", []string{"A int32 `frugal:\"65535,default,i32\"`", "B int32 `frugal:\"65535,default,i32\"`"}},
+	{"id/duplicate-around-max", []string{"A int32 `frugal:\"5,default,i32\"`", "B string `frugal:\"65535,default,string\"`", "C int32 `frugal:\"5,default,i32\"`"}},
+	{"id/duplicate-zero", []string{"A int32 `frugal:\"0,default,i32\"`", "B int64 `frugal:\"0,default,i64\"`"}},
+	{"id/duplicate-far-apart", []string{"A int32 `frugal:\"3,default,i32\"`", "M1 int32 `frugal:\"300,default,i32\"`", "M2 string `frugal:\"2,default,string\"`", "B int32 `frugal:\"3,required,i32\"`"}},
 	{"id/duplicate-mixed-tags", []string{"A int32 `frugal:\"7,default,i32\"`", "B string `thrift:\"b,7,default\"`"}},
 	{"id/non-numeric", []string{"A int32 `frugal:\"x,default,i32\"`"}},
 	{"id/empty", []string{"A int32 `frugal:\",default,i32\"`"}},
@@ -537,7 +555,7 @@ func (g *gen) invalids(valid []string) []*StructDef {
 		}
 		out = append(out, bad)
 		// containers: the invalid definition reached through a valid-looking one
-		pos := i % 5
+		pos := i % 7
 		var ft *T
 		link := &T{K: Struct, S: name, Ptr: true}
 		switch pos {
@@ -549,6 +567,10 @@ func (g *gen) invalids(valid []string) []*StructDef {
 			ft = &T{K: Map, Key: &T{K: String}, Elem: link}
 		case 3:
 			ft = &T{K: Map, Key: &T{K: I32}, Elem: &T{K: List, Elem: link}}
+		case 5:
+			ft = &T{K: Map, Key: link, Elem: &T{K: String}} // reachable only as the pointer key of a map with a valid value
+		case 6:
+			ft = &T{K: Map, Key: link, Elem: &T{K: Struct, S: "BySharedLeaf", Ptr: true}}
 		default:
 			ft = &T{K: Struct, S: name, Ptr: false}
 		}
